@@ -14,12 +14,12 @@ import EmdModel.Protocol
 
 namespace Logger
 
-inductive Level | critical | warning | info | debug
+inductive Level | critical | error | warning | info | debug
   deriving DecidableEq, Repr
 
 /-- numeric values of the `logging` module -/
 def Level.num : Level → Nat
-  | .critical => 50 | .warning => 30 | .info => 20 | .debug => 10
+  | .critical => 50 | .error => 40 | .warning => 30 | .info => 20 | .debug => 10
 
 structure LogState where
   console : Option Level      -- level of the 'console' handler; none = handler absent
@@ -149,7 +149,7 @@ def trace (st : LogState → Op → LogState × Option CallObs) (s : LogState) :
   | op :: ops => let r := st s op; (r.1, r.2, s.disabled) :: trace st r.1 ops
 
 def parseLevel? : String → Option Level
-  | "C" => some .critical | "W" => some .warning | "I" => some .info | "D" => some .debug
+  | "C" => some .critical | "E" => some .error | "W" => some .warning | "I" => some .info | "D" => some .debug
   | _ => none
 
 def parseOptLevel? : String → Option (Option Level)
